@@ -111,6 +111,20 @@ pub fn check_message(m: &ErrMsg, bytes: &[u8], tr: &Truth) -> Result<&'static st
                     }
                 }
             }
+            // `<field> changed from <previous> to <current>` (running checks): <current> is the field of the RDH at the offset
+            static CHANGED: OnceLock<Regex> = OnceLock::new();
+            let changed = CHANGED.get_or_init(|| Regex::new(r"(Orbit|Trigger type|FeeId) changed from 0x([0-9a-fA-F]+) to 0x([0-9a-fA-F]+)").unwrap());
+            for c in changed.captures_iter(first_line) {
+                let (from, to) = (u64::from_str_radix(&c[2], 16).unwrap_or(u64::MAX), u64::from_str_radix(&c[3], 16).unwrap_or(u64::MAX));
+                let stored: u64 = match &c[1] {
+                    "Orbit" => r.orbit as u64,
+                    "Trigger type" => r.trigger_type as u64,
+                    _ => r.fee_id as u64,
+                };
+                if to != stored || from == stored {
+                    return Err((format!("C07:quoted-header-field-differs:{} changed", &c[1]), format!("message at {:#X} says {} changed from {from:#x} to {to:#x}, the RDH at that offset stores {stored:#x}", m.offset, &c[1])));
+                }
+            }
             // `previous:` rows quote earlier RDHs handled by the same validator: each must be the decode of an RDH of the
             // chain before this one; and when the chain has an earlier RDH with the same link id and FEE id (one that is in
             // the same validator whatever the mode and passes every filter this one passes) a previous row must be there,
